@@ -43,6 +43,11 @@ type ipHolder interface {
 type simpleIP net.IP
 
 func (s simpleIP) Contains(ip net.IP) bool {
+	// neither an entry, which could not be parsed, nor a peer address, which cannot be parsed, match anything
+	if len(s) == 0 || len(ip) == 0 {
+		return false
+	}
+
 	return net.IP(s).Equal(ip)
 }
 
